@@ -94,7 +94,7 @@ def run(res, tier, seed):
         r = vlib.model_check(res, SDS, 'ExecSlot', cfg, must_hold=False, deadlock=True)
         if not (r.violation or r.deadlock):
             raise vlib.HarnessFailure('vacuity control failed: %s should deadlock or starve a caller' % cfg)
-    schedlib.publish_fact_check(res, exe, ('resume_aborts_clear', 'enqueue_aborts_clear'))
+    schedlib.publish_fact_check(res, exe, ('resume_aborts_clear', 'enqueue_aborts_clear', 'clear_checked'))
     # PoolState with the fact "the busy marker of a clear transaction is unique" as observed on the running code
     pcfg = 'PoolState_2x2.cfg' if facts.get('busy_unique') else 'PoolState_2x2_shared.cfg'
     r = vlib.model_check(res, SDS, 'MCp', pcfg, must_hold=False, deadlock=False, timeout=1500)
